@@ -8,7 +8,7 @@ from .common import *   # noqa: F401,F403
 from .common import CONCRETE, O, item_vars, numbers, present, zsum, zmax, zmin, zq
 
 WEIGHTS = {3: [[1, 1, 1], [1, 3, 4], [5, 2, 3]], 2: [[1, 1], [2, 7]], 1: [[3]], 4: [[1, 3, 4, 2], [7, 7, 1, 2]],
-           5: [[1, 1, 1, 3, 4], [2, 3, 5, 7, 11]]}
+           5: [[1, 1, 1, 3, 4], [2, 3, 5, 7, 11]], 6: [[1, 1, 1, 3, 4, 2]]}
 
 
 class H:
@@ -73,7 +73,7 @@ def make(L, cont, sorted_fast=False):
 
 def jobs(tier):
     res = []
-    Ls = [1, 2, 3, 4] if tier == 'quick' else [1, 2, 3, 4, 5]
+    Ls = [1, 2, 3, 4, 5] if tier == 'quick' else [1, 2, 3, 4, 5, 6]
     for L in Ls:
         for cont in ('list', 'tuple', 'arr'):
             for sf in (False, True):
